@@ -106,3 +106,64 @@ def replace_bool_lit(fd, old, new, nth=0):
             seen[0] += 1
     walk(fd.body, f)
     return done[0]
+
+
+def drop_try(fd, nth=0):
+    """`expr?` -> `expr` (the error is ignored) for the nth `?` of the body"""
+    seen = [0]
+    done = [False]
+
+    def f(node):
+        if node.get('_') == 'Expr::Try' and not done[0]:
+            if seen[0] == nth:
+                inner = node['expr']
+                node.clear()
+                node.update(inner)
+                done[0] = True
+                return True
+            seen[0] += 1
+    walk(fd.body, f)
+    return done[0]
+
+
+def move_stmts(fd, is_first, count, is_target):
+    """move `count` consecutive top-level statements starting at the first one satisfying is_first
+    to just before the first statement satisfying is_target"""
+    st = stmts_of(fd)
+    i = next((k for k, s in enumerate(st) if is_first(s)), None)
+    j = next((k for k, s in enumerate(st) if is_target(s)), None)
+    if i is None or j is None or i == j:
+        return False
+    chunk = st[i:i + count]
+    del st[i:i + count]
+    if j > i:
+        j -= count
+    st[j:j] = chunk
+    return True
+
+
+def local_named(name):
+    def f(s):
+        if s.get('_') != 'Stmt::Local':
+            return False
+        p = s
+        found = [False]
+
+        def g(n):
+            if n.get('_') == 'Pat::Ident' and n['ident']['sym'] == name:
+                found[0] = True
+        walk(p.get('pat', p), g)
+        return found[0]
+    return f
+
+
+def rename_field_access(fd, old, new, count=99):
+    """`x.old` -> `x.new` for field accesses in the body"""
+    n = [0]
+
+    def f(node):
+        if node.get('_') == 'Expr::Field' and node['member'].get('_') == 'Member::Named' and node['member']['0']['sym'] == old and n[0] < count:
+            node['member'] = {'_': 'Member::Named', '0': dict(node['member']['0'], sym=new)}
+            n[0] += 1
+    walk(fd.body, f)
+    return n[0] > 0
